@@ -4,7 +4,7 @@
    by harness/c03.py: every generated history is replayed on the model (check_history) and the tensors whose
    observable value changed in the implementation must be among those the model allows to change.
    Every proof is `exact <lemma>` or an instance of the central frame lemma. *)
-From TenpyV Require Import Base.Prelude Model.Store Proofs.StoreP.
+From TenpyV Require Import Base.Prelude Model.Store Proofs.StoreP Proofs.StoreP2.
 Open Scope nat_scope.
 
 (* the central statement: whatever operation runs, a live tensor that is not in the (small, explicit)
@@ -96,20 +96,38 @@ Theorem T03_deepcopy_independent : forall h a, wf h -> a < length (objs h) ->
   (forall o, inplace_receiver o = Some a -> denote (fst (exec h1 o)) c = denote h1 c).
 Proof. exact deepcopy_independent. Qed.
 
-(* what is NOT proved here (only checked differentially by harness/c03.py): that the remaining tenpy
-   operations (combine_legs, split_legs, svd, ..., the MPS/MPO layer, Krylov solvers) write where one of
-   the ten modelled transformers writes; frame over whole histories needs preservation of wf by every
-   transformer, proved only for deep copies -- hence only two-step histories "deep copy; any operation". *)
-Theorem T03_history_partial : forall h a o x, wf h -> a < length (objs h) -> x < length (objs h) ->
-  ~ In x (may_change (fst (exec h (OCopy true a))) o) ->
-  denote (fst (exec (fst (exec h (OCopy true a))) o)) x = denote h x.
-Proof.
-  intros h a o x Hwf Ha Hx Hnot.
-  assert (Hx1 : x < length (objs (fst (exec h (OCopy true a))))).
-  { cbn [exec deep_copy fst]. unfold add_obj. cbn [objs]. rewrite app_length. lia. }
-  rewrite (frame_may_change _ o x (wf_deep_copy h a Hwf Ha) Hx1 Hnot).
-  apply frame_may_change; [exact Hwf|exact Hx|intros []].
-Qed.
+(* frame over whole histories.  `run h os` executes the list of operations os one after the other; `ops_ok h os`
+   says that every operation is applicable when it runs (Model/Store.v: its operands are live tensors, the legs of a
+   new tensor exist, axis permutations index the legs of their tensor) -- operands may coincide, be shallow or deep
+   copies of each other, or results of earlier steps.  For EVERY finite history from a well-formed heap:
+   (1) the heap is well-formed at the end, before and after every step;
+   (2) at every step every live tensor outside the step's may_change keeps its value;
+   (3) a tensor that is outside may_change of every step has at the end the value it had at the start.
+   Proof: every one of the eleven transformers preserves wf (Proofs/StoreP2.v: wf_exec), induction over the history.
+   What is NOT proved here (only checked differentially by harness/c03.py): that the remaining tenpy operations
+   (combine_legs, split_legs, svd, ..., the MPS/MPO layer, Krylov solvers) write where one of the modelled
+   transformers writes. *)
+Theorem T03_history : forall os h, wf h -> ops_ok h os ->
+  wf (run h os) /\
+  (forall pre o post, os = pre ++ o :: post ->
+     wf (run h pre) /\ wf (fst (exec (run h pre) o)) /\
+     forall x, x < length (objs (run h pre)) -> ~ In x (may_change (run h pre) o) ->
+               denote (fst (exec (run h pre) o)) x = denote (run h pre) x) /\
+  (forall x, x < length (objs h) ->
+     (forall pre o post, os = pre ++ o :: post -> ~ In x (may_change (run h pre) o)) ->
+     denote (run h os) x = denote h x).
+Proof. exact history_frame. Qed.
+
+(* the histories the harness replays (check_history_applicable = applicability check && check_history, evaluated by
+   vm_compute on every generated history) are applicable histories from a well-formed heap, so T03_history covers them *)
+Theorem T03_checked_histories_covered : forall c, check_history_applicable c = true ->
+  let h0 := mkHeap [] [] (repeat dleg (fst c)) [] in
+  wf h0 /\ ops_ok h0 (history_ops h0 [] (snd c)).
+Proof. exact checked_history_applicable. Qed.
+
+(* the single step behind it: every transformer preserves well-formedness *)
+Theorem T03_wf_preserved : forall h o, wf h -> op_ok h o -> wf (fst (exec h o)).
+Proof. exact wf_exec. Qed.
 
 (* non-vacuity and the looseness of shallow copies: a write through a shallow copy IS visible through the
    other reference for buffer-writing methods and is NOT for rebinding methods (both allowed by Array.copy) *)
@@ -121,6 +139,15 @@ Example T03_shallow_copy_visibility :
 Proof. exact shallow_copy_visibility. Qed.
 Example T03_example_wf : wf (fst (exec (fst (exec (mkHeap [] [] [dleg] []) (ONew 2 [0; 0]))) (OCopy true 0))).
 Proof. apply wf_deep_copy; [repeat constructor|cbn; lia]. Qed.
+(* the hypotheses of T03_history are satisfiable by a history with aliased operands and shallow copies *)
+Example T03_example_history :
+  let h0 := mkHeap [] [] [dleg] [] in
+  wf h0 /\
+  ops_ok h0 [ONew 2 [0; 0]; OCopy false 0; OMapWrite 1 dbl; OBinWrite 0 1 (fun x y => x ++ y); OCopy true 1;
+             OTensordot 0 0 [1; 0] [0; 1] (fun _ _ => ([[1%Z]], [[]])); OAdd 2 2 (fun x y => x ++ y);
+             OMapRebind 1 dbl (fun t => t) [1; 0]; OMeta 0 (fun t => t) [1; 0]; OProject 2 dbl (fun t => t) [dleg; dleg];
+             OScaleAxis 1 dbl; OUnary 0 dbl].
+Proof. exact example_history_ok. Qed.
 
 Print Assumptions T03_frame_all_ops.
 Print Assumptions T03_frame_tensordot.
@@ -135,4 +162,6 @@ Print Assumptions T03_inplace_metadata.
 Print Assumptions T03_inplace_iproject.
 Print Assumptions T03_legs_immutable.
 Print Assumptions T03_deepcopy_independent.
-Print Assumptions T03_history_partial.
+Print Assumptions T03_history.
+Print Assumptions T03_wf_preserved.
+Print Assumptions T03_checked_histories_covered.
